@@ -67,6 +67,36 @@ fn main() {
             println!("RESULT json-number {v:e} -> {j} -> {back:?} same={same}");
             if !same { std::process::exit(3); }
         }
+        // ---- C07: comparison kernel through the public filter API; args: hex of each kani::any() in harness order
+        f if f.starts_with("filter-cmp:") => {
+            use libhaystack::filter::*;
+            let op = &f["filter-cmp:".len()..];
+            let raw: Vec<Vec<u8>> = args[2..].iter().map(|a| unhex(a)).collect();
+            let f64at = |i: usize| f64::from_le_bytes(raw[i][..8].try_into().unwrap());
+            let k = raw[0][0];
+            let (lhs, next) = match k {
+                0 => (Value::Null, 1), 1 => (Value::Marker, 1), 2 => (Value::Na, 1), 3 => (Value::Remove, 1),
+                4 => (Value::make_bool(raw[1][0] != 0), 2),
+                5 => (Value::make_coord_from(f64at(1), f64at(2)), 3),
+                _ => (Value::make_number(f64at(1)), 2),
+            };
+            let y = f64at(next);
+            if !y.is_finite() { println!("RESULT filter-cmp literal {y} cannot be written as filter text; not replayable"); return; }
+            let sym = match op { "eq" => "==", "ne" => "!=", "lt" => "<", "le" => "<=", "gt" => ">", _ => ">=" };
+            let text = format!("x {sym} {y:?}");
+            let filter = Filter::try_from(text.as_str()).expect("filter");
+            let mut d = Dict::new();
+            if !lhs.is_null() { d.insert("x".into(), lhs.clone()); }
+            let got = d.filter(&filter);
+            let x = if let Value::Number(n) = &lhs { Some(n.value) } else { None };
+            let want = match op {
+                "eq" => x == Some(y), "ne" => !lhs.is_null() && x != Some(y),
+                "lt" => x.map_or(false, |x| x < y), "le" => x.map_or(false, |x| x <= y),
+                "gt" => x.map_or(false, |x| x > y), _ => x.map_or(false, |x| x >= y),
+            };
+            println!("RESULT filter-cmp record={{x:{lhs:?}}} filter={text:?} matched={got} expected={want}");
+            if got != want { std::process::exit(3); }
+        }
         // ---- C12: equality / hash / order laws on the real impls; exit 3 = a law is violated
         "number-laws" | "number-hash" => {
             let f = |i: usize| args[i].parse::<f64>().unwrap();
